@@ -9,6 +9,7 @@ package controllers
 // controller-runtime channel source and worker (harness tasks), frr-k8s (frrk8sinterp).
 
 import (
+	"sort"
 	"context"
 	"encoding/json"
 	"errors"
@@ -38,9 +39,9 @@ import (
 
 var curTk8s *testing.T
 
-var specByKey = map[string]string{}
 
 type k8sUpdate struct {
+	js    string // the computed spec, JSON
 	idx   int
 	spec  frrv1beta1.FRRConfigurationSpec
 	model *bgpmodel.State
@@ -48,6 +49,9 @@ type k8sUpdate struct {
 }
 
 type kworld struct {
+	specByKey   map[string]string
+	paramsByKey map[string]bgp.SessionParameters
+	lvl         logging.Level
 	env     *runner.Env
 	ch      *choice.Chooser
 	s       *simrt.Sched
@@ -142,6 +146,11 @@ func (w *kworld) onUpdateConfig(c interface{}) {
 			bfd = append(bfd, fmt.Sprint(p.Name, p.ReceiveInterval != nil && *p.ReceiveInterval > 0, ptrVal(p.ReceiveInterval)))
 		}
 		key := u.model.Key() + fmt.Sprint(bfd)
+		if w.specByKey == nil {
+			w.specByKey = map[string]string{}
+		}
+		u.js = string(js)
+		specByKey := w.specByKey // this run only: the comparison with other creation orders is freshComputeCheck
 		if old, seen := specByKey[key]; seen && old != string(js) {
 			w.violate("C15", "resource-not-a-function-of-the-session-set", fmt.Sprintf("the same set of sessions produced two different resources:\n%s\n%s", old, js))
 		} else if !seen && len(specByKey) < 200000 {
@@ -195,6 +204,10 @@ func (w *kworld) submitter(slot int, sm bgp.SessionManager) {
 			}
 			nsess++
 			key := fmt.Sprintf("%d/%d", slot, nsess)
+			if w.paramsByKey == nil {
+				w.paramsByKey = map[string]bgp.SessionParameters{}
+			}
+			w.paramsByKey[key] = params
 			w.pending[me] = func(st *bgpmodel.State) { st.Sessions[key] = ms }
 			sess, err := sm.NewSession(log.NewNopLogger(), params)
 			delete(w.pending, me)
@@ -308,6 +321,7 @@ func gfrrk8sRun(env *runner.Env) (res *runner.Result) {
 		if debug {
 			lvl = logging.LevelDebug
 		}
+		w.lvl = lvl
 		w.rec = &FRRK8sReconciler{Client: cl, Logger: log.NewNopLogger(), LogLevel: lvl, NodeName: nodeName, FRRK8sNamespace: frrNS}
 		w.rec.configChangedChan = make(chan struct{})
 		w.rec.reconcileChan = make(chan event.GenericEvent)
@@ -418,7 +432,72 @@ func gfrrk8sRun(env *runner.Env) (res *runner.Result) {
 		}()
 		synctest.Test(curTk8s, bubble)
 	}()
+	if res.Violation == nil && !w.halt && env.On("C15") {
+		simrt.Active, simrt.SelectOrder, simrt.OnSend = nil, nil, nil
+		w.freshComputeCheck()
+		res.Violation = w.viol
+	}
 	return res
+}
+
+// freshComputeCheck is the determinism clause of C15 in a replayable form: the requested state of
+// an update of this run is built once more on a fresh session manager under a drawn creation
+// order, advertisement order and map iteration order; the computed resource must be identical.
+func (w *kworld) freshComputeCheck() {
+	var cands []*k8sUpdate
+	for _, u := range w.updates {
+		if u.js != "" {
+			cands = append(cands, u)
+		}
+	}
+	if len(cands) == 0 {
+		return
+	}
+	picks := []*k8sUpdate{cands[len(cands)-1]}
+	if len(cands) > 1 {
+		picks = append(picks, cands[w.pick(len(cands)-1, "fresh computation of which update")])
+	}
+	simrt.MapOrder = func(n int) []int { return w.ch.Perm(n, "fresh map order") }
+	defer func() { simrt.MapOrder = nil }()
+	for _, u := range picks {
+		sm := frrk8s.NewSessionManager(log.NewNopLogger(), w.lvl, nodeName, frrNS)
+		var last *frrv1beta1.FRRConfiguration
+		sm.SetEventCallback(func(c interface{}) {
+			cfg := c.(frrv1beta1.FRRConfiguration)
+			last = &cfg
+		})
+		keys := make([]string, 0, len(u.model.Sessions))
+		for k := range u.model.Sessions {
+			keys = append(keys, k)
+		}
+		sort.Strings(keys)
+		for _, ki := range w.ch.Perm(len(keys), "fresh creation order") {
+			k := keys[ki]
+			ms := u.model.Sessions[k]
+			sess, err := sm.NewSession(log.NewNopLogger(), w.paramsByKey[k])
+			if err != nil {
+				w.violate("C15", "fresh-computation-refused", fmt.Sprintf("re-creating session %s of update #%d on a fresh session manager failed: %v", k, u.idx, err))
+				return
+			}
+			var ads []*bgp.Advertisement
+			for _, ai := range w.ch.Perm(len(ms.Advs), "fresh advertisement order") {
+				ads = append(ads, bgpgen.ToAdvertisement(ms.Advs[ai]))
+			}
+			if err := sess.Set(ads...); err != nil {
+				w.violate("C15", "fresh-computation-refused", fmt.Sprintf("re-submitting the advertisements of session %s of update #%d failed: %v", k, u.idx, err))
+				return
+			}
+		}
+		if last == nil {
+			continue
+		}
+		js, _ := json.Marshal(last.Spec)
+		w.stat("probe.fresh-computation-compared")
+		if string(js) != u.js {
+			w.violate("C15", "resource-depends-on-creation-or-map-order", fmt.Sprintf("update #%d: the same sessions and advertisements, created in another order on a fresh session manager, give a different resource:\n%s\n%s", u.idx, u.js, js))
+			return
+		}
+	}
 }
 
 // checkWritten: whatever MetalLB writes must be one of the configurations it computed, and never
